@@ -68,7 +68,8 @@ def make_cases(tier, rng):
     # an accept the application abandons (raw Accept, listener closed unused, nobody dialled), then the same id accepted
     # again and dialled: the abandoned accept must leave nothing behind that the second one trips over (real processes)
     for d in ["h2p", "p2h"]:
-        e = dict(g.est(rng, d, rng.choice(["accept_first", "dial_first"]), gap=rng.choice([0, 100])), pre="abandoned_accept")
+        # (accept first: with the dial first the outcome on the unchanged tree depends on a race inside go-plugin, DESIGN section 7)
+        e = dict(g.est(rng, d, "accept_first", gap=rng.choice([0, 100])), pre="abandoned_accept")
         add("process", [g.est(rng, gap=0), e, dict(g.est(rng, d, gap=0), id=e["id"], nopeer="dial_again"), g.est(rng, gap=0)], "reaccept")
     # the gRPC half of C09's last clause: closing the client ends the brokers' goroutines (a few in-process cases, it takes seconds)
     n = 0
